@@ -289,9 +289,12 @@ class C13(Engine):
             if prefix:
                 result.key(text, prefix + [[codec, flag]])
 
+            # A rejected compile yields no codec object; the statement says
+            # nothing about the text of that rejection (it names the first
+            # module that fails, which depends on module order), so only
+            # the exception type is compared.
             if compiled[0] != expected[0] or (
-                    compiled[0] != 'ok'
-                    and canon_outcome(compiled) != canon_outcome(expected)):
+                    compiled[0] != 'ok' and compiled[1] != expected[1]):
                 report('compile-outcome-diff',
                        {'codec': codec, 'numeric_enums': flag,
                         'history': prefix,
